@@ -26,7 +26,7 @@ cvars == <<arch, base, secs, cur, labels, refs, phase, bad, seen, atab>>
 
 PcRelKinds == {"jmp", "jcc", "call", "jecxz", "loop", "riprel", "b26", "b19", "b14", "adr", "adrp"}
 AbsKinds == {"embedlabel", "abs32"}
-TargetKinds == {"absjmp", "absmem", "absadr", "absadrp"}            \* references to absolute addresses (no label)
+TargetKinds == {"absjmp", "absjcc", "absmem", "absadr", "absadrp"}            \* references to absolute addresses (no label)
 LabelKinds == PcRelKinds \cup AbsKinds \cup {"embeddelta"}
 
 Sec(s) == secs[s]
@@ -184,6 +184,11 @@ ExactTarget(r, bs) ==
            [] op = 235 -> SameAddr(WAdd(EndOfInst(r), WSignedFromBytes(Sub(bs, k + 1, 1))), A)
            [] op = 255 /\ bs[k + 2] \in {37, 21} /\ arch = "x64" ->        \* jmp/call qword [rip + disp32] -> address table
                 SlotHolds(WAdd(EndOfInst(r), WSignedFromBytes(Sub(bs, k + 2, 4))), A)
+           [] OTHER -> FALSE
+    [] r.kind = "absjcc" ->       \* jz / jb to an absolute target: 74|72 cb or 0F 84|82 cd (no address-table form exists)
+         LET k == Skip(bs) op == bs[k + 1] IN
+         CASE op \in {116, 114} -> SameAddr(WAdd(EndOfInst(r), WSignedFromBytes(Sub(bs, k + 1, 1))), A)
+           [] op = 15 /\ bs[k + 2] \in {132, 130} -> SameAddr(WAdd(EndOfInst(r), WSignedFromBytes(Sub(bs, k + 2, 4))), A)
            [] OTHER -> FALSE
     [] r.kind = "absmem" ->       \* form 0: mov ecx,[m] (8B /1)   1: mov dword [m],imm32 (C7 /0)   2: add byte [m],imm8 (80 /0)
          LET has67 == bs[1] = 103
